@@ -11,7 +11,9 @@ RULE = ("program-level: for force fields with no / every single link template (t
         "Topology.from_gmx_topfile and compared (atoms, interactions with numeric parameters and #ifdef/#ifndef guards, modulo "
         "the writer's symmetric atom order) with the molecule captured at write_molecule_itp; if no link is missing the "
         "recovered residue graph must be isomorphic (brute force) to the requested one with equal resname/resid. "
-        "non-trivial = molecule with >=1 inter-residue interaction and >=1 guarded interaction or >=2 residues")
+        "plus multi-residue from_itp blocks, and a residue type carrying every interaction section of the .itp dialect (two-function "
+        "angles, multi-term + improper dihedrals, pairs, multi-atom exclusions, virtual_sites2/3/n, guarded constraints / angles / "
+        "position restraints) in all pairs of sections x chains of 1-3. non-trivial = molecule with >=1 inter-residue interaction and >=1 guarded interaction or >=2 residues")
 ASSUMPTIONS = ["dependency versions: the ones installed here (vermouth 0.15.0, networkx 3.6.1), both inside the declared ranges",
                "meta keys the .itp format cannot express (version, group, edge) are not compared"]
 BUDGET = {"quick": 420, "thorough": 2400}
@@ -29,6 +31,7 @@ def cases(tier):
         for lk in (["bb"], ["ang3", "bb"], ["circ", "bb"], ["rm", "bb"]):
             yield {"variant": {"links": lk}, "n": 4, "tier": tier}
     yield {"kind": "fromitp", "tier": tier}
+    yield {"kind": "sections", "tier": tier}
 
 
 def canon_inter(sec, atoms, params, guard):
@@ -187,9 +190,86 @@ def check_fromitp(case):
     return dict(evals=evals, keys=keys, violations=viols[:20], stats={"inputs_fromitp": evals}, sample={"kind": "fromitp", "inputs": evals})
 
 
+SEC_HEAD = """[ moleculetype ]
+R 1
+[ atoms ]
+1 P1 1 R A 1 0.0 72.0
+2 P2 1 R B 2 0.5 36.0
+3 P3 1 R C 3 -0.5 36.0
+4 P4 1 R D 4 0.0 12.0
+5 VS 1 R V 5 0.0 0.0
+6 VS 1 R W 6 0.0 0.0
+[ bonds ]
+1 2 1 0.30 1000
+2 3 1 0.31 1100
+3 4 1 0.32 1200
+1 7 1 0.40 500
+"""
+SEC_OPTIONAL = {
+    "constraints-ifndef": "[ constraints ]\n#ifndef FLEXIBLE\n1 3 1 0.45\n#endif\n",
+    "angles-two-functions": "[ angles ]\n1 2 3 2 120 50\n2 3 4 10 100 20\n",
+    "dihedrals-multi-and-improper": "[ dihedrals ]\n1 2 3 4 9 0 1.5 1\n1 2 3 4 9 180 2.5 2\n2 1 3 4 2 35 100\n",
+    "pairs": "[ pairs ]\n1 4 1\n",
+    "exclusions-multi": "[ exclusions ]\n1 3 4\n2 4\n",
+    "virtual_sites2": "[ virtual_sites2 ]\n5 1 2 1 0.5\n",
+    "virtual_sites3": "[ virtual_sites3 ]\n6 1 2 3 1 0.2 0.3\n",
+    "virtual_sitesn": "[ virtual_sitesn ]\n6 1 1 2 3 4\n",
+    "posres-ifdef": "[ position_restraints ]\n#ifdef POSRES\n1 1 1000 1000 1000\n#endif\n",
+    "angles-ifdef": "[ angles ]\n#ifdef STIFF\n1 2 4 1 90 500\n#endif\n",
+}
+
+
+def check_sections(case):
+    """a residue type carrying every interaction section polyply's .itp dialect knows, in all pairs of optional sections, built
+    into chains of 1-3 residues: the written file read back equals the molecule that was built"""
+    import itertools
+    viols, evals, keys = [], 0, []
+    names = sorted(SEC_OPTIONAL)
+    combos = [()] + [(a,) for a in names] + list(itertools.combinations(names, 2)) + [tuple(names)]
+    for combo in combos:
+        if "virtual_sites3" in combo and "virtual_sitesn" in combo and len(combo) == 2:
+            continue        # both construct the same site
+        if case.get("one") and list(combo) != case["one"]:
+            continue
+        use = [c for c in combo if not (c == "virtual_sitesn" and "virtual_sites3" in combo)]
+        itp = SEC_HEAD + "".join(SEC_OPTIONAL[c] for c in use)
+        for n in (1, 2, 3):
+            rg = dict(n=n, edges=[[i, i + 1] for i in range(n - 1)], resids=[1 + i for i in range(n)], resnames=["R"] * n)
+            evals += 1
+            case1 = dict(kind="sections", tier=case["tier"], one=list(combo))
+            with H.tempdir() as d:
+                r = H.run_gen_params(d, [("in.itp", itp)], graph=H.build_resgraph(rg))
+                if r["exc"] is not None:
+                    viols.append(crash_violation(r["exc"], case1, assertion="itp-written-for-accepted-input", tags=["sections"]))
+                    continue
+                try:
+                    top = H.read_back(d, "out.itp", {a["atype"] for a in r["captured"]["atoms"]})
+                except Exception as exc:  # noqa
+                    viols.append(crash_violation(exc, case1, assertion="written-itp-readable", tags=["sections"]))
+                    continue
+                a = digest_for_roundtrip(H.mol_digest(top.molecules[0].molecule))
+                b = digest_for_roundtrip(r["captured"])
+                if a[0] != b[0] and len(viols) < 20:
+                    viols.append(dict(assertion="reread-atoms-equal", tags=["sections"], message=f"sections {use} n={n}: atoms differ", case=case1, detail={}))
+                if a[1] != b[1] and len(viols) < 20:
+                    extra = [x for x in a[1] if x not in b[1]][:3]
+                    lost = [x for x in b[1] if x not in a[1]][:3]
+                    viols.append(dict(assertion="reread-interactions-equal", tags=["sections"],
+                                      message=f"sections {use} n={n}: only in file {extra}; only in built molecule {lost}", case=case1, detail={}))
+                want_inter = sum(len(SEC_OPTIONAL[c].strip().splitlines()) - 1 - 2 * SEC_OPTIONAL[c].count("#endif") for c in use)
+                nb = sum(1 for x in b[1] if x[0] != "bonds")
+                if nb != want_inter * n and len(viols) < 20:
+                    viols.append(dict(assertion="reread-interactions-equal", tags=["sections", "built-molecule-incomplete"],
+                                      message=f"sections {use} n={n}: built molecule has {nb} non-bond interactions, the blocks define {want_inter * n}", case=case1, detail={}))
+        keys.append(json.dumps(list(combo)))
+    return dict(evals=evals, keys=keys, violations=viols[:20], stats={"inputs_sections": evals}, sample={"kind": "sections", "inputs": evals})
+
+
 def run_case(case):
     if case.get("kind") == "fromitp":
         return check_fromitp(case)
+    if case.get("kind") == "sections":
+        return check_sections(case)
     variant = case["variant"]
     spec = gp_cases.make_spec(variant)
     stats = {}
